@@ -3,6 +3,7 @@ package metadata
 import (
 	"fmt"
 	"go/ast"
+	"reflect"
 	"strings"
 
 	"github.com/gopher-fleece/gleece/v2/common"
@@ -36,6 +37,19 @@ func (f FieldMeta) Reduce(_ ReductionContext) (definitions.FieldMetadata, error)
 		IsEmbedded:  f.IsEmbedded,
 		Deprecation: common.Ptr(GetDeprecationOpts(f.Annotations)),
 	}, nil
+}
+
+// IsJsonVisible determines whether encoding/json serializes the field at all:
+// the field is exported (or embedded, in which case its own exported fields are promoted) and is not tagged `json:"-"`
+func (f FieldMeta) IsJsonVisible() bool {
+	if fieldNode, ok := f.Node.(*ast.Field); ok && fieldNode != nil && fieldNode.Tag != nil {
+		tag := reflect.StructTag(strings.Trim(fieldNode.Tag.Value, "`"))
+		if tag.Get("json") == "-" {
+			return false
+		}
+	}
+
+	return f.IsEmbedded || ast.IsExported(f.Name)
 }
 
 func (m TypeUsageMeta) IsUniverseType() bool {
